@@ -492,6 +492,10 @@ def init(table, reload=False):
     """
     if 'neutron_activation' in table.properties and not reload:
         return
+    # Activation data is attached to the isotopes; refuse before marking the
+    # table as loaded so that init can be called again after mass.init.
+    assert 'mass' in table.properties, \
+        "Activation table requires mass properties"
     table.properties.append('neutron_activation')
 
     # Clear the existing activation table
